@@ -38,8 +38,8 @@ type Event struct {
 	Depth    int
 	NConds   int
 	Deferred bool
-	InDefer  bool // executed while running deferred calls
-	Blocking bool // select without default
+	InDefer  bool  // executed while running deferred calls
+	Blocking bool  // select without default
 	Ok       *Term // the "received from an open channel" flag of a select / v, ok := <-ch
 }
 
